@@ -325,7 +325,7 @@ namespace hs
         unsigned w_an = 40, w_aa = arrays ? (r.chance(1, 4) ? 0u : 14u) : 0u, w_fr = 34, w_frall = 2,
                  w_top = 0, w_unw = 0, w_next = 0, w_shrink = 0, w_mv = 0, w_mva = 0, w_swp = 0,
                  w_mk2 = 0, w_ds = 0, w_dhusk = 0, w_over = 1, w_cap = 0, w_cycle = 0, w_rsv = 0,
-                 w_tdf = 0, w_cor = 0;
+                 w_tdf = 0, w_cor = 0, w_tdfx = 0;
         if (is_stack)
         {
             w_top    = 12;
@@ -377,8 +377,9 @@ namespace hs
         }
         if (profile == "C08")
         {
-            w_tdf = 25;
-            w_mk2 = 6;
+            w_tdf  = 25;
+            w_tdfx = 12;
+            w_mk2  = 6;
         }
         if (profile == "C03" || profile == "C18")
             w_over = 5;
@@ -442,7 +443,8 @@ namespace hs
                             w_cycle,
                             w_rsv,
                             have2 ? w_tdf : 0,
-                            w_cor};
+                            w_cor,
+                            w_tdfx};
             auto fam = (long long)r.weighted(fam_w, 3);
             switch (r.weighted(w, sizeof w / sizeof *w))
             {
@@ -526,6 +528,10 @@ namespace hs
                 break;
             case 18:
                 p.add("tdf", {(long long)r.below(1000)});
+                break;
+            case 20:
+                p.add("tdfx", {obj(), (long long)r.below(8), (long long)r.below(2), (long long)r.size_biased(0, 4000),
+                               (long long)r.below(2)});
                 break;
             case 19:
                 p.add("cor", {r.chance(1, 2) ? (long long)(live ? live - 1 : 0) : (long long)r.below(1000),
